@@ -35,7 +35,8 @@ Fixpoint bad_idx {A} (f : A -> bool) (i : nat) (l : list A) : list nat :=
   match l with [] => [] | x :: r => if f x then bad_idx f (S i) r else i :: bad_idx f (S i) r end.
 """
 XML_NS = "http://www.w3.org/XML/1998/namespace"
-FLAG_NAMES = ["check", "check_attrs", "model_capacity_ok", "guard_seq", "guard_or", "order_safe", "rep_confined", "cm_wf", "amp_default", "guard_orseq"]
+FLAG_NAMES = ["check", "check_attrs", "model_capacity_ok", "order_safe", "rep_confined", "cm_wf", "amp_default", "guard_orseq"]
+F_CHECK, F_ATTRS, F_MODEL, F_OSAFE, F_REP, F_WF, F_AMP, F_ORSEQ = range(8)
 
 
 # ------------------------------------------------------------------ Coq evaluation of a file with several Evals
@@ -226,6 +227,32 @@ def witness_doc(d, rng, el_name, word, text=False):
     return dg.document("min", root_name=el_name, force=([inv[q] for q in word], text))
 
 
+# ------------------------------------------------------------------ witnesses of fixed findings: run every time
+def _leaf(n):
+    return {"name": n, "kind": "EMPTY", "attrs": []}
+
+
+def _desc(cm, names, attrs=()):
+    return {"root": "r", "prefixes": {}, "default_ns": None, "flavour": "witness",
+            "elements": [{"name": "r", "kind": "CM", "cm": cm, "attrs": list(attrs)}] + [_leaf(n) for n in names]}
+
+
+FIXED_WITNESSES = [
+    # C16-F1 (fixed 1017a9f): occurrence of a sequence group
+    (_desc(["seq", [["el", "a", ""], ["el", "b", ""]], "*"], ["a", "b"]), ["<r><a/><b/><a/><b/></r>", "<r/>"]),
+    (_desc(["seq", [["el", "a", ""], ["el", "b", ""]], "?"], ["a", "b"]), ["<r/>", "<r><a/><b/></r>"]),
+    (_desc(["seq", [["el", "a", ""], ["el", "b", ""]], "+"], ["a", "b"]), ["<r><a/><b/><a/><b/><a/><b/></r>"]),
+    # C16-F2 (fixed 160d460): occurrence of a member of a choice
+    (_desc(["or", [["el", "a", "*"], ["el", "b", ""]], ""], ["a", "b"]), ["<r><a/><a/></r>", "<r><b/></r>", "<r/>"]),
+    (_desc(["or", [["seq", [["el", "a", ""], ["el", "b", "*"]], ""], ["el", "c", ""]], ""], ["a", "b", "c"]),
+     ["<r><a/><b/><b/></r>", "<r><c/></r>"]),
+    # C16-F7 (fixed 5f04a63): "&" in attribute defaults
+    (_desc(["el", "a", "?"], ["a"], [{"name": "k", "type": "CDATA", "values": [], "dflt": "DEFAULT", "value": "R&D"},
+                                      {"name": "f", "type": "CDATA", "values": [], "dflt": "FIXED", "value": "x&y<z"}]),
+     ["<r/>", '<r k="p&amp;q"><a/></r>']),
+]
+
+
 # ------------------------------------------------------------------ the check
 def run(ck: Check):
     ck.level = "translation_validation"
@@ -251,6 +278,15 @@ def run(ck: Check):
                     if G.validate(replay["dtd"], x)[0]]
         programs.append({"d": replay["desc"], "dtd": replay["dtd"], "docs": docs})
         NPROG = 1
+    else:
+        for d, docs in FIXED_WITNESSES:
+            txt = G.dtd_text(d)
+            for x in docs:
+                ok, err = G.validate(txt, x)
+                if not ok:
+                    raise RuntimeError(f"C16 witness document is not DTD-valid: {x} ({err})")
+            programs.append({"d": d, "dtd": txt, "docs": list(docs)})
+        NPROG += len(FIXED_WITNESSES)
     while len(programs) < NPROG:
         flav = flavours[len(programs) % len(flavours)]
         d = None
@@ -379,8 +415,7 @@ def run(ck: Check):
         results = list(ex.map(eval_shard, range(len(shards))))
 
     # ---------------- interpret
-    KNOWN = {"seq": "dtd-seq-group-occurrence-dropped", "or": "dtd-choice-member-occurrence-overridden",
-             "ns": "dtd-element-namespaces-lost", "any": "dtd-any-text-after-child",
+    KNOWN = {"ns": "dtd-element-namespaces-lost", "any": "dtd-any-text-after-child",
              "tail": "dtd-any-child-tail-captured", "amp": "dtd-attribute-default-ampersand-unexpanded",
              "orseq": "dtd-choice-of-sequence-one-compound-slot",
              "ws": "mixed-whitespace-only-text-dropped"}
@@ -390,22 +425,19 @@ def run(ck: Check):
     distinct = set()
 
     def classify(flags, gns, code, compound=False):
-        """Narrow class of a rejection at a class with these Coq-computed flags, or None (= new violation)."""
+        """Narrow class of a rejection at a class with these Coq-computed flags, or None (= new violation).
+        The classes of fixed findings (seq / or / amp) are still named so that a regression is reported under them."""
         if code == 3:
-            return KNOWN["any"] if not flags[0] else None
+            return KNOWN["any"] if not flags[F_CHECK] else None
         if code == 2:
-            return (KNOWN["ns"] if not gns else (KNOWN["amp"] if flags[8] else None)) if not flags[1] else None
+            return (KNOWN["ns"] if not gns else (KNOWN["amp"] if flags[F_AMP] else None)) if not flags[F_ATTRS] else None
         if code != 1:
             return None
-        if flags[2]:
-            # the mapper model kept capacity: the loss is elsewhere (only clause 4 explains one)
-            return KNOWN["orseq"] if compound and not flags[9] else None
+        if flags[F_MODEL]:
+            # the mapper model kept capacity: the loss is elsewhere (only clause orseq explains one)
+            return KNOWN["orseq"] if compound and not flags[F_ORSEQ] else None
         if not gns:
             return KNOWN["ns"]
-        if not flags[3]:
-            return KNOWN["seq"]
-        if not flags[4]:
-            return KNOWN["or"]
         return None
 
     for si, sh in enumerate(shards):
@@ -423,24 +455,24 @@ def run(ck: Check):
             for ci, (el, fl) in enumerate(zip(d["elements"], flags[k])):
                 stats["classes"] += 1
                 distinct.add((run["p"]["dtd"], el["name"], run["compound"]))
-                if fl[0]:
+                if fl[F_CHECK]:
                     stats["classes_check_true"] += 1
-                if gns[k] and fl[3] and fl[4] and not fl[2]:
-                    ck.failure("theorem-instance-dtd-capacity", f"guards hold but the mapper model loses capacity for {el['name']}",
+                if gns[k] and not fl[F_MODEL]:
+                    ck.failure("theorem-instance-dtd-capacity", f"the mapper model loses capacity for {el['name']} (contradicts C16_dtd_capacity)",
                                replay_of(run, element=el["name"]))
-                if not fl[1]:
-                    ck.failure(KNOWN["ns"] if not gns[k] else (KNOWN["amp"] if fl[8] else "attribute-binding-mismatch"), f"attribute fields of {el['name']} do not re-materialise the declared defaults",
+                if not fl[F_ATTRS]:
+                    ck.failure(KNOWN["ns"] if not gns[k] else (KNOWN["amp"] if fl[F_AMP] else "attribute-binding-mismatch"), f"attribute fields of {el['name']} do not re-materialise the declared defaults",
                                replay_of(run, element=el["name"], attrs=el["attrs"]))
-                if not fl[7]:
+                if not fl[F_WF]:
                     raise RuntimeError("C16 generator produced an ill-formed content model")
-                if not fl[0]:
+                if not fl[F_CHECK]:
                     w = rejected[k][ci]
                     text = False
                     if w is None and el["kind"] == "ANY":
                         w, text = [[ord(c) for c in clark(d, d["elements"][-1]["name"])]], True
                     if w is not None:
                         witness_jobs.append((run, ci, el, fl, gns[k], ["".join(chr(c) for c in q) for q in w], text))
-                    elif fl[2] and not (run["compound"] and not fl[9]):
+                    elif fl[F_MODEL] and not (run["compound"] and not fl[F_ORSEQ]):
                         ck.failure("capacity-lost-after-mapper", f"validator rejects the metadata of {el['name']} although the mapper kept capacity; no witness word",
                                    replay_of(run, element=el["name"]))
         bad_pa, bad_info, bad_unord, bad_reval, bad_lang, has_ws, has_wt, has_amp = map(
@@ -488,11 +520,11 @@ def run(ck: Check):
                     ck.failure(cls, "output does not have the same elements, attributes and values as the input (defaults applied)",
                                replay_of(run, doc=doc, out=dr["ok"]))
                 elif di in bad_info:
-                    orseq = run["compound"] and any(not flags[k][ci][9] for ci in doc_cls[di] if ci < len(flags[k]))
+                    orseq = run["compound"] and any(not flags[k][ci][F_ORSEQ] for ci in doc_cls[di] if ci < len(flags[k]))
                     ck.failure(KNOWN["ns"] if not gns[k] else (KNOWN["orseq"] if orseq else "order-not-preserved"), "element order changed although the side condition for order holds",
                                replay_of(run, doc=doc, out=dr["ok"]))
                 if di in bad_reval:
-                    orseq = run["compound"] and any(not flags[k][ci][9] for ci in doc_cls[di] if ci < len(flags[k]))
+                    orseq = run["compound"] and any(not flags[k][ci][F_ORSEQ] for ci in doc_cls[di] if ci < len(flags[k]))
                     ck.failure(KNOWN["ns"] if not gns[k] else (KNOWN["orseq"] if orseq else "output-not-dtd-valid"), "serialized output is not DTD-valid although order is claimed for all its elements",
                                replay_of(run, doc=doc, out=dr["ok"]))
 
